@@ -546,6 +546,6 @@ def rehook_run(case, ctx):
 
 def stages(tier):
     return [{"name": "inject", "kind": "hyp", "strategy": strategy, "run": run,
-             "examples": {"quick": 5000, "thorough": 100000}, "shards": 16},
+             "examples": {"quick": 8000, "thorough": 100000}, "shards": 16},
             {"name": "rehook", "kind": "hyp", "strategy": rehook_strategy, "run": rehook_run,
              "examples": {"quick": 400, "thorough": 8000}, "shards": 4}]
